@@ -238,12 +238,12 @@ def harnesses(tier: str) -> List[H]:
     light = [k for k in range(n) if not is_heavy(mod.EXPRS[k])]
     heavy = [k for k in range(n) if is_heavy(mod.EXPRS[k])]
     for label, pool, hv in (("expr", light, False), ("heavy", heavy, True)):
-        size = chunk if not hv else max(2, chunk // 2)
+        size = chunk if not hv else max(2, chunk // 4)
         for c in range(0, len(pool), size):
             ids = tuple(pool[c:c + size])
             lo_x, hi_x = ((-1, 2) if tier == "quick" else (-2, 3)) if hv else (-4, 12)
             params = [I("eid", 0, len(ids) - 1), I("x", lo_x, hi_x), I("y", lo_x, hi_x), B("b"),
-                      L("xs", 2 if tier == "quick" else 3, -3, 3), I("on", -2, 2), B("oflag")]
+                      L("xs", (1 if hv else 2) if tier == "quick" else 3, -3, 3), I("on", -2, 2), B("oflag")]
             out.append(H("{}_{:04d}".format(label, c // size),
                          bind(run_expr, (tier, ids, hv), ALL, {}, [p.name for p in params]), params, tiers=(tier,),
                          timeout=900 if tier == "quick" else 3600,
